@@ -99,6 +99,14 @@ inline uint32_t hint_mask(Rng& r, unsigned bits) {
     }
 }
 
+// length of a free-text preamble member: mostly short; sometimes long enough to push the preamble over one 2048-byte encoder
+// buffer; rarely longer than one 65535-byte decoder window
+inline size_t text_len(Rng& r, size_t small) {
+    if (r.chance(1, 12)) return (size_t)r.range(200, 3000);
+    if (r.chance(1, 100)) return (size_t)r.range(22000, 30000);   // (characters; 1..4 bytes each: mostly beyond 65535 bytes)
+    return (size_t)r.below(small);
+}
+
 inline CDNS::BlockParameters block_parameters(Rng& r, bool rich) {
     static const uint64_t tps[] = {1, 2, 1000, 1000000, 1000000000};
     static const uint64_t maxi[] = {0, 1, 2, 3, 5, 8, 10000};
@@ -126,8 +134,8 @@ inline CDNS::BlockParameters block_parameters(Rng& r, bool rich) {
         if (r.coin()) sp.client_address_prefix_ipv6 = (uint8_t)uint_bits(r, 8);
         if (r.coin()) sp.server_address_prefix_ipv4 = (uint8_t)uint_bits(r, 8);
         if (r.coin()) sp.server_address_prefix_ipv6 = (uint8_t)uint_bits(r, 8);
-        if (r.coin()) sp.sampling_method = utf8(r, r.below(12));
-        if (r.coin()) sp.anonymization_method = utf8(r, r.below(12));
+        if (r.coin()) sp.sampling_method = utf8(r, text_len(r, 12));
+        if (r.coin()) sp.anonymization_method = utf8(r, text_len(r, 12));
         unsigned cpk = (unsigned)r.below(4);  // absent / empty / partial / full
         if (cpk > 0) {
             CDNS::CollectionParameters cp;
@@ -140,9 +148,9 @@ inline CDNS::BlockParameters block_parameters(Rng& r, bool rich) {
             if (on()) { size_t n = r.range(1, 3); for (size_t i = 0; i < n; i++) cp.interfaces.push_back(utf8(r, r.below(8))); }
             if (on()) { size_t n = r.range(1, 3); for (size_t i = 0; i < n; i++) cp.server_address.push_back(bytes(r, r.coin() ? 4 : 16)); }
             if (on()) { size_t n = r.range(1, 3); for (size_t i = 0; i < n; i++) cp.vlan_ids.push_back((uint16_t)uint_bits(r, 16)); }
-            if (on()) cp.filter = utf8(r, r.below(20));
-            if (on()) cp.generator_id = utf8(r, r.below(20));
-            if (on()) cp.host_id = utf8(r, r.below(20));
+            if (on()) cp.filter = utf8(r, text_len(r, 20));
+            if (on()) cp.generator_id = utf8(r, text_len(r, 20));
+            if (on()) cp.host_id = utf8(r, text_len(r, 20));
             bp.collection_parameters = cp;
         }
     }
